@@ -273,12 +273,14 @@ def resolve_loop_exits(F):
     Returns list of (kind, line, detail) with kind in {"converged", "error", "unconverged"}"""
     f, cfg, du, le, calls = resolve_loop_facts(F)
     loops = cfg.loops()
-    call_bb = calls[0][0]
+    # the round loop: the largest natural loop containing a call of the pass function (a first pass hoisted in front of the
+    # loop is a call outside of it)
     body = None
-    for h, blks in loops.items():
-        if call_bb in blks:
-            if body is None or len(blks) > len(body):
-                body = blks
+    for call_bb, _ in calls:
+        for h, blks in loops.items():
+            if call_bb in blks:
+                if body is None or len(blks) > len(body):
+                    body = blks
     if body is None:
         raise BrokenCheck("resolve_tx: eval_pass is not called inside a loop (anchor changed)")
     ok_returns = set()
